@@ -557,6 +557,33 @@ def _num_desc(v):
     return type(v).__name__
 
 
+NORMALISER_PROBES = [0.07 * 100, 1 / 3, 0.1 + 0.2, 123456789.12345679, 1e-20, -2.675, 5.0, 0.0, 1e22 / 3, 29 / 100, 0.57 * 100, -1e-7 / 3,
+                     1234567890123456.0, 0.1 * 3]
+
+
+def normaliser_eval(cp):
+    """(ok, what) from the helper evaluated as written on doubles whose 15-digit rendering differs from the double itself and on
+    doubles it must leave alone; None when the evaluator cannot follow the helper"""
+    from ..finite import evaluator_for, const_av, Unknown, AbsRaise
+    ev = evaluator_for(cp, max_depth=6)
+    inst = ev.new_obj('ExcelInPython', {})
+    for x in NORMALISER_PROBES:
+        want = float(f'{x:.15g}')
+        try:
+            got = ev.call_method('_normalize_float_number', [const_av(x)], inst)
+        except Unknown:
+            return None
+        except AnalysisError:
+            return None
+        except AbsRaise as e:
+            return False, f'raises {e.exc} on {x!r}'
+        if got.kind not in ('float', 'int') or got.val is None or isinstance(got.val, tuple):
+            return None
+        if got.kind != 'float' or repr(float(got.val)) != repr(want):
+            return False, f'gives {got.val!r} for {x!r}; the number rounded to 15 significant digits is {want!r}'
+    return True, f'evaluated on {len(NORMALISER_PROBES)} doubles: float(<15 significant digits>)'
+
+
 def normaliser_ok(fn: ast.FunctionDef):
     """the helper returns float(<15-significant-digit rendering of its argument>)"""
     params = [a.arg for a in fn.args.args if a.arg not in ('self', 'cls')]
@@ -633,7 +660,11 @@ def r6(run: Run, src, g, em, rt, forms):
         if fn is None:
             run.bad('C01.R6', f'_normalize_float_number[{cp.label}]', 'missing', 'the 15-digit normaliser does not exist', loc=cp.path)
             continue
-        ok, why = normaliser_ok(fn)
+        verdict = normaliser_eval(cp)
+        if verdict is None:
+            ok, why = normaliser_ok(fn)                 # the evaluator cannot follow it: the text is read
+        else:
+            ok, why = verdict
         run.check(ok, 'C01.R6', f'_normalize_float_number[{cp.label}]', 'not-15-significant-digits',
                   f'the percent normaliser {why}', fact=why, loc=cp.loc(fn))
     # the blank object
